@@ -100,6 +100,7 @@ func Model(r *rand.Rand, opt ModelOpt) *openfgav1.AuthorizationModel {
 	if r.Intn(3) == 0 {
 		g.tuplesets = []string{"p", "q"} // a second tupleset with its own parent types
 	}
+	sparse := r.Intn(5) == 0
 	for _, o := range objs {
 		td := &openfgav1.TypeDefinition{Type: o, Relations: map[string]*openfgav1.Userset{}, Metadata: &openfgav1.Metadata{Relations: map[string]*openfgav1.RelationMetadata{}}}
 		if len(g.tuplesets) > 1 {
@@ -134,7 +135,12 @@ func Model(r *rand.Rand, opt ModelOpt) *openfgav1.AuthorizationModel {
 		}
 		td.Relations["p"] = This()
 		td.Metadata.Relations["p"] = &openfgav1.RelationMetadata{DirectlyRelatedUserTypes: prefs}
-		for _, rn := range relNames {
+		for ri, rn := range relNames {
+			// sometimes a type defines only a subset of the relation names: computed / TTU / userset references may then
+			// point at a relation this type (or a parent type) lacks
+			if sparse && ri > 0 && r.Intn(3) == 0 {
+				continue
+			}
 			hasThis := false
 			us := g.userset(0, relNames, &hasThis, rn)
 			td.Relations[rn] = us
